@@ -28,6 +28,7 @@ type InlinePolicy func(caller, callee *Function) bool
 // Normalizer carries the per-program state of the normalising pass.
 type Normalizer struct {
 	Policy   InlinePolicy
+	Uses     map[*Function]int // operand references to each function in the whole program (set by the caller)
 	NonNil   func(Value) bool  // oracle: the value is never nil (error constructors, sentinels)
 	MaxInstr int               // callees with more instructions are left alone (0 = 400)
 	state    map[*Function]int // 0 new, 1 in progress, 2 done
@@ -76,7 +77,12 @@ func (n *Normalizer) inlinable(caller, callee *Function) bool {
 	if callee == nil || callee == caller || len(callee.Blocks) == 0 || callee.Synthetic != "" {
 		return false
 	}
-	if len(callee.FreeVars) > 0 || len(callee.AnonFuncs) > 0 || callee.Recover != nil {
+	if len(callee.FreeVars) > 0 || callee.Recover != nil {
+		return false
+	}
+	// a helper that owns closures is absorbed only when this call is its single use in the program:
+	// its closures then simply change parent
+	if len(callee.AnonFuncs) > 0 && (n.Uses == nil || n.Uses[callee] != 1) {
 		return false
 	}
 	if callee.typeparams.Len() > 0 || len(callee.typeargs) > 0 {
@@ -305,6 +311,15 @@ func (n *Normalizer) inlineCall(fn *Function, call *Call) {
 	}
 	for i, b := range fn.Blocks {
 		b.Index = i
+	}
+	// closures of a helper absorbed at its single use now belong to the caller
+	if len(callee.AnonFuncs) > 0 {
+		for _, anon := range callee.AnonFuncs {
+			anon.parent = fn
+			anon.anonIdx = int32(len(fn.AnonFuncs))
+			fn.AnonFuncs = append(fn.AnonFuncs, anon)
+		}
+		callee.AnonFuncs = nil
 	}
 }
 
